@@ -6,9 +6,13 @@ from harness.common import sim
 from harness.props import ulpi_phy as U
 
 PROP = "C24"
-LEAN_MODULES = ["LunaVerif.Props.C24"]
+LEAN_MODULES = ["LunaVerif.Props.C24", "LunaVerif.Lemmas.C24World", "LunaVerif.Lemmas.C24Coh",
+                "LunaVerif.Lemmas.C24RankDefs", "LunaVerif.Lemmas.C24RankStep", "LunaVerif.Lemmas.C24Converge"]
 DRIVER = "Driver/C24.lean"
-REQUIRED_THEOREMS = ["write_carries_own_value", "converges_partial", "no_mutual_blocking"]
+REQUIRED_THEOREMS = ["write_carries_own_value", "converges_partial", "no_mutual_blocking", "phy_tracks_window",
+                     "settled_regs_equal_requested", "converges", "converges_from_reset", "tx_delay_bounded",
+                     "write_delay_bounded", "dir_low_often_is_not_enough", "coh_step", "rank_step",
+                     "rank_reaches_zero"]
 RULE = ("(utmi) the real UTMITranslator with a behavioural PHY holding a register file (a write is accepted when the "
         "PHY sees command, data, STP uninterrupted), control inputs changing at random cycles — single signals, both "
         "registers at once, reverts to the previous/reset value, i.e. at every phase of an in-flight write and at the "
@@ -16,22 +20,25 @@ RULE = ("(utmi) the real UTMITranslator with a behavioural PHY holding a registe
         "aborts register writes with DIR; (win) the real ULPIRegisterWindow alone with reads, writes, argument "
         "changes during transactions, DIR interruptions")
 ASSUMPTIONS = [
-    "the PHY asserts NXT only in answer to a byte it saw on the bus, accepts a register write as command / data / "
-    "STP with DIR low throughout, and does not raise DIR in the middle of a link transmission (the transmit "
-    "translator ignores such an abort, C23)",
-    "the UTMI transmitter holds tx_valid until its first byte is accepted",
+    "safeCycle (phy_tracks_window, settled_regs_equal_requested; every cycle, stated on the pins and the PHY's own bus "
+    "parser): E1 no NXT in the turnaround cycle after DIR fell; E2 the PHY does not raise DIR inside a link "
+    "transmission it has accepted (the transmit translator ignores such an abort, C23); E3 with its parser idle and "
+    "DIR low the PHY asserts NXT only when a byte is on the data lines.  The UTMI transmitter and the control inputs "
+    "are unconstrained there",
+    "liveCycle K T (converges, tx_delay_bounded, write_delay_bounded; K, T universally quantified): safeCycle, and a "
+    "presented command / data byte is answered by NXT after at most K wait cycles, a link transmission occupies the "
+    "PHY for at most T cycles from the acceptance of its command to STP (T is a hypothesis on the pin trace; it is "
+    "not derived from the packet length and C23's NXT schedule), and the UTMI transmitter keeps tx_valid up until "
+    "the byte it presents is accepted",
+    "converges: control inputs constant over the history considered, start-up timer expired at its beginning (the "
+    "60000-cycle timer of a record with rst is not part of the bound), history at least 3(2K+6) + T + (2K+5)N cycles "
+    "long, N = number of DIR-high cycles in it.  The DIR hypothesis is this budget and not 'DIR low at least once "
+    "every D cycles', which is insufficient for any ULPI link (dir_low_often_is_not_enough: DIR high every third "
+    "cycle, all other hypotheses satisfied, no register write ever completes)",
     "monitor bounds: control changes are rare enough (<= 2 % of cycles) and packets short enough that 200 DIR-low "
     "cycles with stable control inputs suffice for both registers",
 ]
-PARTIAL = ("converges is proved as converges_partial: (safety) the shadow register of address a is credited exactly "
-           "with the value the register window latched and sent for a, a request is raised iff a shadow differs from "
-           "the requested value, and nothing is requested once both agree; (progress) one accepted write completes in "
-           "w1 + w2 + 4 cycles for NXT waits w1, w2 with DIR low and commits the latched pair in the PHY register-file "
-           "model (write_carries_own_value).  NOT proved: the composed liveness statement over UTMITranslator (from "
-           "stable inputs both registers are written within 2(K+6) cycles plus transmit time) and the statement "
-           "that the PHY observer attached to the translator's pins commits exactly the window's completed writes for "
-           "every legal PHY; both are covered by the co-simulation (Lean PHY observer = Python PHY observer on the "
-           "real pins) and the regs-not-converged / write-carries-wrong-value monitors.")
+PARTIAL = ""
 
 WIN_IN = ["ulpi_data_in", "ulpi_dir", "ulpi_next", "address", "write_data", "read_request", "write_request"]
 WIN_OUT = ["ulpi_data_out", "ulpi_out_req", "ulpi_stop", "busy", "done", "read_data"]
